@@ -71,6 +71,13 @@ CLAIMED['C09'].update(category='other', technique=_SEM,
          'contracts. Not proved: absence of TypeError/HplSanityError from the quantifier constructor (C14, bounded), the '
          'predicate-unwrapping dispatch. Bounded stand-in kept.',
     note='A-SEM; obligations lost with respect to /verif/baseline/C09.json are reported as violations without a failing input')
+CLAIMED['C10'].update(category='other', technique=_SEM,
+    text='Proved (unbounded, every well-typed expression with hygienic quantifiers): _refactor_ref_expr, _split_ref_operator, '
+         '_split_ref_negation, _split_ref_quantifier: (f1 and f2) == f on every valuation; f1 contains no reference to A; when f '
+         'does not mention A the result is f itself paired with True. Assumed: semantic axioms A-SEM-1..3 (checked natively), '
+         'quantifier/function-call constructor contracts. Not proved (bounded): no bound variable escapes, the predicate-level '
+         'wrapper and public dispatch, absence of TypeError/HplSanityError from the quantifier constructor (C14).',
+    note='A-SEM; obligations lost with respect to /verif/baseline/C10.json are reported as violations without a failing input')
 CLAIMED['C19'].update(category='other', technique='ground evaluation + pyvc contract of the value serializer; bounded in-process runs of hpl.cli.main (third-party: attrs.asdict, json, argparse)',
     text='Proved/ground: _ast_object_serializer maps enum members to values, non-finite floats to None, leaves finite numbers and other values unchanged. Bounded (A-3P): exit status 0 iff the argument parses, one strictly valid JSON document mirroring the AST, no JSON on failure.')
 NOT_YET = {}
